@@ -200,7 +200,7 @@ ADDED = {
     "C04": "accessor purity, float labels, a buffer refilled in place, a float32 / Fortran batch served in between, "
            "outputs under the poisoned allocator; rows on the split thresholds and half a float32 ulp away, earlier single-row results kept, a second life with pickled copies, models whose local estimators refuse single rows, upstream tests as a row-wise workload, batches sorted by a feature / by the output (whole, with holes, two ends), histories mixing the methods around a refused call and a named frame, exact Manhattan ties judged, the batch column-major / strided, bitwise equality for ExtendedFeatures",
     "C05": "scale classes with scale-relative slack (LP optimum taken at unit scale), copy_X=False, strict weighted "
-           "normalisation (integer weights = repeated rows for score), layouts, set_params / NumPy-scalar configuration; boolean features with fractional weights, two fits of the same size in two threads, unsigned integer features, a refused refit under the other fit_intercept, rows of weight 0 with sentinel targets",
+           "normalisation (integer weights = repeated rows for score), layouts, set_params / NumPy-scalar configuration; boolean features with fractional weights, two fits of the same size in two threads, unsigned integer features, a refused refit under the other fit_intercept, rows of weight 0 with sentinel targets, frames on a shuffled index with targets on the range index (the converged refit keeps the containers)",
     "C06": "refused fit under the other norm between two calls, scale classes, fit_transform, layouts, "
            "set_params / NumPy-scalar configuration; callable / ndarray init (a view included), RandomState objects and the global generator as random_state, an empty cluster away from the origin, fit_transform / fit_predict entry points with weights, n_init='auto', algorithm='elkan'",
     "C07": "an earlier life with strategy='weights', layouts, integer data, set_params / NumPy-scalar configuration; batches above 256 rows gathered round one centre, max_iter 1 and 3, NumPy booleans, 17-26 clusters",
@@ -211,24 +211,24 @@ ADDED = {
     "C10": "exact predict rule on the model's own probabilities (ties included), float32 features, frames with a "
            "permuted index at fit and predict time, set_params / NumPy-scalar configuration; labels of unequal length and booleans, three refused fits then the same answers, frames with the training columns in another order, an intercept-free node classifier, far rows for which an inner node answers NaN",
     "C11": "poisoned allocator on every numeric comparison, all-zero columns, 4097 / 5000-row matrices, refused "
-           "calls and refused fits inside histories, a buffer refilled in place; hyper-parameters compared around refused fits, earlier single-row results kept, kind switched without a refit, fits refused because of a parameter and repaired, DataFrame fits inside histories, the first transform after a fit aborted half-way",
+           "calls and refused fits inside histories, a buffer refilled in place; hyper-parameters compared around refused fits, earlier single-row results kept, kind switched without a refit, fits refused because of a parameter and repaired, DataFrame fits inside histories, the first transform after a fit aborted half-way, degree 0",
     "C12": "integer bins of every width and signedness, lists and views, the helpers re-checked after a refit of the "
            "same estimator, trees trained with missing values, a buffer refilled in place; NaN and +-max(float32) query points, infinite and out-of-float32 edges, both directions in one process, a tree deeper than the recursion limit, the returned range overwritten by the caller, precomputed parents while another tree is inspected, a tree with leaf ids beyond 65 535",
     "C13": "refit refused by the inner classifier, one transformer object shared by two models, label matrices in "
-           "C / Fortran / transposed layouts and strided label vectors; targets of 1e-9 .. 1e-20 for log1p / expm1, labels of unequal length, the far end of the domain (exponents up to 709.7, arguments up to 1.6e308), the reciprocal of the reciprocal, codes in narrow integer types, 64-bit labels, set_params without a refit",
-    "C14": "the same vectorizer objects reconfigured with set_params and refitted three times; stop lists with multi-word entries, the stop list object mutated in place between fits, tokens whose case folding differs from their lower case, n-gram lower bound 0, continuation tokens (mp / mp3 / mp_3), documents as bytes and as files",
+           "C / Fortran / transposed layouts and strided label vectors; targets of 1e-9 .. 1e-20 for log1p / expm1, labels of unequal length, the far end of the domain (exponents up to 709.7, arguments up to 1.6e308), the reciprocal of the reciprocal, codes in narrow integer types, 64-bit labels, set_params without a refit, one constant weight other than 1",
+    "C14": "the same vectorizer objects reconfigured with set_params and refitted three times; stop lists with multi-word entries, the stop list object mutated in place between fits, tokens whose case folding differs from their lower case, n-gram lower bound 0, continuation tokens (mp / mp3 / mp_3), documents as bytes and as files, refit after a refused transform",
     "C15": "call sequences with refused calls and refits, wrapped estimator refitted in place, (n, 1) targets, "
-           "wrapped estimators trained on DataFrames, original compared even when fit raises; sparse outputs, callables bound to another trained object, batches with a NaN through stackings of tolerant and strict members, frozen transfers of estimators without n_features_in_, weights through a stacking to transformer members, one model object listed twice under two methods",
+           "wrapped estimators trained on DataFrames, original compared even when fit raises; sparse outputs, callables bound to another trained object, batches with a NaN through stackings of tolerant and strict members, frozen transfers of estimators without n_features_in_, weights through a stacking to transformer members, one model object listed twice under two methods, the wrapped estimator updated in place between two transfers",
     "C16": "deep copy of an altered pipeline fitted again, a refused second alteration, refused inputs given to the "
            "altered pipeline and to an untouched twin; column selections as arrays / Index / tuples, negative positions, wide tables, a refused predict followed by the other methods, pipelines whose alteration is refused midway, batches given by keyword, text pipelines fed lists, tuples, generators and iterators, ColumnTransformer entries with an empty selection",
     "C17": "pandas and CSR containers, refit asked about the same batch objects, a buffer refilled in place, members "
            "keep their own rows, base regressors that cannot take weights, layouts, set_params configuration; a base regressor answering NaN outside its ids, tail tests for draws with replacement, a refused refit with another number of members, predictions under a process-based joblib backend, tiny training sets with enough members for the tail tests, members on zero rows",
     "C18": "object / float32 columns, permuted index, warm_start ensembles vs the same without, a buffer refilled in "
-           "place; models carrying a generator object, a stateful standardiser pair (order of tr / inv_tr), axes of the caller's frame, callables that share the name of a predefined function, transform_output=pandas, labels of mixed types, pandas containers with pandas-minded transformations, tables of two to four rows",
+           "place; models carrying a generator object, a stateful standardiser pair (order of tr / inv_tr), axes of the caller's frame, callables that share the name of a predefined function, transform_output=pandas, labels of mixed types, pandas containers with pandas-minded transformations, tables of two to four rows, the same whole-vector callable on both sides",
     "C19": "three spellings of a missing cell, numeric-dtype categories, a column without category at fit, "
            "narrow-then-full / refused-then-full / clone-of-fitted histories, transform after refused calls; int64 identifiers above 2**53, unseen falsy values, NumPy boolean flags, category dtype with unused declared levels, batches without rows, two columns with the same vocabulary and a removed modality, integer codes -1 / -2",
     "C20": "memory layouts of series / exogenous block / weights, one model object re-parametrised between calls, "
-           "the empty-table boundary and every call under the poisoned allocator; series and exogenous blocks with missing observations, ts_mape argument purity, ts_mape under sklearn assume_finite=True, same_rows given as NumPy bool / integer, models with an earlier fitted life, observed series in pandas containers, tables of an earlier call kept, naive forecast with holes",
+           "the empty-table boundary and every call under the poisoned allocator; series and exogenous blocks with missing observations, ts_mape argument purity, ts_mape under sklearn assume_finite=True, same_rows given as NumPy bool / integer, models with an earlier fitted life, observed series in pandas containers, tables of an earlier call kept, naive forecast with holes, lag windows of 9 and 12",
 }
 
 
